@@ -20,6 +20,72 @@ CHECKS = {
         note="Trusted: Python os.lstat/os.listdir as ground truth; tmpfs semantics; binary built without LTO; path spelling is not judged.",
         ref="DESIGN.md section 3 / C01",
     ),
+    "C02": dict(
+        level="exploration",
+        technique="runtime monitoring: typed reference-comparison oracle over real executions on generated trees",
+        text="Thousands of `where <col> <op> <literal>` executions of the real binary per run (numeric, text, boolean, date columns, BETWEEN, "
+             "column-vs-column, quoted identifier-like literals, negative literals, units) are compared entry by entry with a reference "
+             "written from the documentation; a (type x operator) coverage matrix must be filled or the run is inconclusive.",
+        note="Trusted: fsv/model.py comparison semantics (from docs/usage.md and the statement), os.lstat ground truth. Ordering operators on text columns are not generated.",
+        ref="DESIGN.md section 3 / C02"),
+    "C03": dict(
+        level="exploration",
+        technique="runtime monitoring: metamorphic set-algebra oracle over fselect's own atom results; bounded-exhaustive formula enumeration",
+        text="rows(F) is compared with F evaluated by set algebra over the rows fselect itself returns for F's atoms, for every formula with "
+             "<= 2 (quick) / <= 3 (thorough) connectives over three atoms of every operator kind on a tree realising all 8 truth assignments, "
+             "plus random deep formulas with mixed brackets and keyword case.",
+        note="Trusted: set algebra in Python; atoms range over always-present columns only.",
+        ref="DESIGN.md section 3 / C03"),
+    "C05": dict(
+        level="exploration",
+        technique="runtime monitoring: metamorphic permutation + adjacent-pair order oracle; comparator antisymmetry monitor on hook events",
+        text="Ordered results are checked to be a permutation of the unordered rows and pairwise in order under a numeric / chronological / "
+             "code-point comparator, with key values learned from fselect itself; Criteria::cmp events are checked for antisymmetry.",
+        note="Trusted: printed key values (metamorphic); ties may be in any order.",
+        ref="DESIGN.md section 3 / C05"),
+    "C06": dict(
+        level="exploration",
+        technique="runtime monitoring: metamorphic oracle against the unlimited query, exhaustive in N; TopN/row hook invariants",
+        text="For every generated query every N in 1..M+2 (and 0 / absent) is executed: row count, sub-multiset and top-N key prefix are checked "
+             "against the unlimited result, on streamed, ordered, multi-root, bfs/dfs and archive searches.",
+        note="Trusted: stable readdir order between two runs on an unchanged tmpfs tree.",
+        ref="DESIGN.md section 3 / C06"),
+    "C07": dict(
+        level="exploration",
+        technique="runtime monitoring: metamorphic row multiset + exact Fraction arithmetic oracle",
+        text="Aggregate cells are compared with exact/textbook values computed from the multiset that the non-aggregate query returns, for trees with 0, 1, 2, many rows, fractional means and huge sparse sizes; all 511 subsets of the nine functions in the thorough tier.",
+        note="Trusted: Python Fraction/math; don't-care for sample statistics of < 2 rows and empty MIN/MAX/AVG.",
+        ref="DESIGN.md section 3 / C07"),
+    "C08": dict(
+        level="exploration",
+        technique="runtime monitoring: metamorphic (key, value) rows + exact per-group recomputation + conservation against the ungrouped query",
+        text="Group rows are matched one-to-one with the distinct key values of the ungrouped rows, every aggregate is recomputed per group, COUNT/SUM conservation is checked against the ungrouped aggregate query, and ORDER BY on key / integer aggregate / AVG is checked.",
+        note="Trusted: as C07; group order unspecified without ORDER BY.",
+        ref="DESIGN.md section 3 / C08"),
+    "C09": dict(
+        level="exploration",
+        technique="runtime monitoring: independent decoders (json.loads, strict RFC 4180 parser, tag-stack HTML parser) against the NUL-separated table; writer-protocol monitor on hook events",
+        text="Every format on every result path (streamed, ordered, aggregate, grouped) is decoded and compared with the `into list` table for hostile file names; `out` hook events must follow header (row (sep row)*)? footer.",
+        note="Trusted: Python json/html.parser, the strict CSV parser in fsv/checks/c09.py.",
+        ref="DESIGN.md section 3 / C09"),
+    "C12": dict(
+        level="exploration",
+        technique="runtime monitoring: wildcard-DP / literal / regex-subset reference matcher, complementarity check, regex-cache coherence monitor on hook events",
+        text="Positive and negative operator of each kind are run on every derived pattern over names full of regex metacharacters and compared with a matcher that shares no code with a regex translation; `rx` hook events check that a cached regex is only reused by the operator class that compiled it.",
+        note="Trusted: fsv/model.py wild_match, Python re on the generated sub-language. Known finding: LIKE `?`.",
+        ref="DESIGN.md section 3 / C12"),
+    "C13": dict(
+        level="exploration",
+        technique="runtime monitoring: interval reference under pinned TZ (zoneinfo), edge-grid mtimes, trichotomy monitor",
+        text="For each literal a directory with mtimes on both sides of both interval edges is searched with all 8 operators under five time zones (one with DST switches at local midnight); printed `modified` is compared with the local rendering of st_mtime.",
+        note="Trusted: Python zoneinfo with the system tzdata; relative literals judged only when the local date did not change during the run.",
+        ref="DESIGN.md section 3 / C13"),
+    "C14": dict(
+        level="exploration",
+        technique="runtime monitoring: unit-table reference on sparse files; grammar / monotonicity / round-trip relation monitors over the complete specifier grammar",
+        text="Every unit suffix in several letter cases with integer and fractional numbers is compared against files of v-1, v, v+1 bytes; every specifier of the documented grammar is rendered over a logarithmic size grid and checked for grammar, monotonicity and round trip.",
+        note="Trusted: documented multiplier table; exact strings are humansize's business and not modelled.",
+        ref="DESIGN.md section 3 / C14"),
 }
 
 NOT_APPLICABLE = {}
